@@ -32,7 +32,7 @@ static std::string bconf(int b)
   case 0: return "harmonic {\n name h\n colvars a\n centers 1.0\n forceConstant 2.0\n timeStepFactor 2\n}\n";
   case 1: return "harmonicWalls {\n name w\n colvars b\n lowerWalls 1.0\n upperWalls 1.5\n forceConstant 3.0\n}\n";
   case 2: return "histogram {\n name hi\n colvars a c\n}\n";
-  case 3: return "abf {\n name f\n colvars a\n fullSamples 1\n}\n";
+  case 3: return "abf {\n name f\n colvars a\n fullSamples 1\n hideJacobian on\n}\n";  // (hideJacobian changes how the variable reports and receives forces while the bias exists)
   default: return "metadynamics {\n name m\n colvars c\n hillWeight 0.4\n hillWidth 2.0\n newHillFrequency 1\n}\n";
   }
 }
